@@ -979,7 +979,10 @@ class Messenger(Connection):
         self.send_ready()
 
         self._keepalive_reset()
-        self._idle_reset()
+        if not self._in_term:
+            # once terminating only what is heard from the peer defers
+            # the idle close, not the keepalives this side keeps sending
+            self._idle_reset()
 
     def send_reject(self, reason, pkt=None):
         ''' Send a message rejection response.
@@ -1018,6 +1021,8 @@ class Messenger(Connection):
         )
         self.send_message(messages.MessageHead() /
                           messages.SessionTerm(**options))
+        # the last time this side defers the idle close by itself
+        self._idle_reset()
 
     def start(self):
         ''' Main state machine of the agent contact. '''
